@@ -1,6 +1,9 @@
 import DilithiumVerif.Impl.PolyVec
 import DilithiumVerif.Lemmas.Basic
 import DilithiumVerif.Lemmas.Rej
+import DilithiumVerif.Lemmas.RejEta
+import DilithiumVerif.Lemmas.SamplerTotal
+import DilithiumVerif.Lemmas.ChallengeWeight
 /-
   C17 — Samplers are the specification's functions of their seeds and stay in range.
   Part 1: the byte-level acceptance maps and their ranges.
@@ -50,5 +53,46 @@ theorem rej_uniform_spec (alen acap : Nat) (buf : List Nat) (buflen : Nat) (hb :
   exact rejSpec_range alen (buf.take buflen) [] (by simp) (by simp)
 
 example : rej_uniform 256 256 [0xFF, 0xFF, 0xFF, 0x01, 0x00, 0x00, 0x00, 0xE0, 0x7F, 0x05] 10 = .ok [1, 8380416] := by decide
+
+/-! ## The eta sampler, the ranges of all samplers, and their totality -/
+
+/-- **`rej_eta` is the filter the specification describes**, for ANY buffer (FIPS 204 Alg. 33 / 15): the two half-bytes of
+    each of the first `buflen` bytes, low nibble first, accepted when < 15 (η = 2, value 2 − (b mod 5)) resp. < 9
+    (η = 4, value 4 − b), until `alen` values are found. -/
+theorem rej_eta_spec (lv : Lvl) (alen : Nat) (buf : List Nat) (buflen : Nat) (hb : buflen ≤ buf.length) :
+    rej_eta lv alen alen buf buflen = .ok (etaSpec lv alen (buf.take buflen) []) := rej_eta_eq lv alen buf buflen hb
+
+/-- the code's branch-free `b − (205·b >> 10)·5` is b mod 5 on the accepted half-bytes -/
+theorem eta2_is_mod5 (t : Nat) (h : t < 15) : (t - ((205 * t) >>> 10) * 5 : Nat) = t % 5 := halfByte_mod5 t h
+
+open DV.Ranges in
+/-- ranges of what the samplers return, for every seed and nonce on which they return: matrix entries in [0, q), secret
+    coefficients in [−η, η] (η = 2, 4, 2), mask coefficients in (−γ1, γ1], challenge coefficients in {−1, 0, 1}; always
+    exactly 256 coefficients -/
+theorem sampler_ranges (p : Params) (fuel : Nat) (seed : List Nat) (nonce : Nat) :
+    (∀ r, poly_uniform fuel seed nonce = .ok r → r.length = 256 ∧ ∀ x ∈ r, 0 ≤ x ∧ x < Q) ∧
+    (∀ r, poly_uniform_eta p.lvl fuel seed nonce = .ok r → r.length = 256 ∧ ∀ x ∈ r, -(etaI p.lvl) ≤ x ∧ x ≤ etaI p.lvl) ∧
+    (∀ r, poly_uniform_gamma1 p.lvl seed nonce = .ok r → r.length = 256 ∧ ∀ x ∈ r, -(gamma1Of p.lvl) < x ∧ x ≤ gamma1Of p.lvl) ∧
+    (∀ r, poly_challenge p fuel seed = .ok r → r.length = 256 ∧ ∀ x ∈ r, x = -1 ∨ x = 0 ∨ x = 1) :=
+  ⟨fun r h => poly_uniform_std fuel seed nonce r h, fun r h => poly_uniform_eta_small p.lvl fuel seed nonce r h,
+   fun r h => uniform_gamma1_range p.lvl seed nonce r h, fun r h => challenge_tern p fuel seed r h⟩
+
+open DV.SamplerTotal in
+/-- the samplers never fault on seeds of the right length: they return a polynomial or the model's block budget runs out -/
+theorem samplers_total (p : Params) (hp : p ∈ allParams) (fuel : Nat) (rho rhop ct : List Nat) (nonce : Nat)
+    (h1 : rho.length = SEEDBYTES) (h2 : rhop.length = CRHBYTES) (h3 : ct.length = p.ctilde) :
+    OkOrFuel (poly_uniform fuel rho nonce) (fun _ => True) ∧ OkOrFuel (poly_uniform_eta p.lvl fuel rhop nonce) (fun _ => True) ∧
+    OkOrFuel (poly_challenge p fuel ct) (fun _ => True) :=
+  ⟨(poly_uniform_total fuel rho nonce h1).mono (fun _ _ => trivial), (poly_uniform_eta_total p.lvl fuel rhop nonce h2).mono (fun _ _ => trivial),
+   (poly_challenge_total p hp fuel ct h3).mono (fun _ _ => trivial)⟩
+
+open DV.Ranges in
+/-- **SampleInBall**: for each of the six parameter sets and every challenge seed on which it returns, the challenge has
+    256 coefficients, all in {−1, 0, 1}, and exactly τ of them are non-zero. -/
+theorem challenge_has_weight_tau (p : Params) (hp : p ∈ allParams) (fuel : Nat) (seed : List Nat) (c : List Int)
+    (h : poly_challenge p fuel seed = .ok c) :
+    (c.filter (fun x => x ≠ 0)).length = p.tau ∧ c.length = 256 ∧ ∀ x ∈ c, x = -1 ∨ x = 0 ∨ x = 1 := by
+  obtain ⟨h1, h2⟩ := challenge_weight p hp fuel seed c h
+  exact ⟨h1, h2.1, h2.2⟩
 
 end DV.C17
